@@ -48,6 +48,9 @@ FEATURE, RELATION, FMODEL, CTC = ("Feature",), ("Relation",), ("FeatureModel",),
 ASTT, NODE, NDATA, ASTOP, FTYPE, CARD = ("AST",), ("Node",), ("ndata",), ("astop",), ("ftype",), ("Cardinality",)
 UNKNOWN = ("?",)
 DOMAIN, RANGE = ("Domain",), ("Range",)
+FSET = ("fset",)          # a set of features as a value (outside the functions that share and mutate sets)
+SETREF, STORE = ("setref",), ("store",)
+INTSTR = ("intstr",)     # Union[int, str] that is only ever printed or compared with integers: carried as its str()     # a set object lives in a store of sets (aliasing!); a value of type set is its index
 FLOAT = ("float",)        # a Python float carried as its repr (the VFloat payload)
 ANY, ATTRIBUTE = ("any",), ("Attribute",)      # Any / Dict[str, Any] is a JSON-like value (aval)
 
@@ -72,7 +75,8 @@ def coq_ty(t):
     k = t[0]
     simple = {"int": "Z", "bool": "bool", "str": "string", "Feature": "lfeat", "Relation": "lrel",
               "FeatureModel": "fm", "Constraint": "ctc", "AST": "node", "Node": "node", "ndata": "ndata",
-              "astop": "astop", "ftype": "ftype", "any": "aval", "Attribute": "attr", "char": "ascii", "float": "string", "Domain": "domain", "Range": "range"}
+              "astop": "astop", "ftype": "ftype", "any": "aval", "Attribute": "attr", "char": "ascii", "float": "string", "Domain": "domain", "Range": "range",
+              "setref": "nat", "store": "py_store", "fset": "(list lfeat)", "intstr": "string"}
     if k in simple:
         return simple[k]
     if k == "none":
@@ -93,6 +97,10 @@ def coq_ty(t):
 def join(a, b):
     if a == b:
         return a
+    if INTSTR in (a, b) and {a, b} <= {INTSTR, INT, STR}:
+        return INTSTR
+    if {a, b} == {NDATA, STR}:
+        return STR
     if a == UNKNOWN:
         return b
     if b == UNKNOWN:
@@ -143,6 +151,18 @@ FTYPE_MEMBERS = {"BOOLEAN": "TBoolean", "INTEGER": "TInteger", "REAL": "TReal", 
 ASTOPS = ["REQUIRES", "EXCLUDES", "AND", "OR", "XOR", "IMPLIES", "NOT", "EQUIVALENCE", "EQUALS", "LOWER",
           "GREATER", "LOWER_EQUALS", "GREATER_EQUALS", "NOT_EQUALS", "ADD", "SUB", "MUL", "DIV", "SUM", "AVG",
           "LEN", "FLOOR", "CEIL"]
+def _ftype_values():
+    tree = ast.parse(open(os.path.join(REPO_PKG, "models/feature_model.py"), encoding="utf-8").read())
+    for n in tree.body:
+        if isinstance(n, ast.ClassDef) and n.name == "FeatureType":
+            vals = {t.id: st.value.value for st in n.body if isinstance(st, ast.Assign) for t in st.targets
+                    if isinstance(t, ast.Name) and isinstance(st.value, ast.Constant)}
+            if set(vals) == set(FTYPE_MEMBERS):
+                return vals
+    raise SystemExit("py2coq: FeatureType is not the enum of four members the model knows")
+
+
+FTYPE_VALUES = _ftype_values()
 CORE_CONSTS = {"LOGICAL_OPERATORS": ("logical_ops", List(ASTOP)),
                "ARITHMETIC_OPERATORS": ("arithmetic_ops", List(ASTOP)),
                "AGGREGATION_OPERATORS": ("aggregation_ops", List(ASTOP))}
@@ -209,7 +229,8 @@ EXT_FUNCS = {
 
 
 # class-level dict tables, regenerated by tools/gen_tables*.py into Gen/Tables_*.v as functions to option
-CLASS_TABLES = {"GlencoeWriter.CTC_TYPES": ("glencoe_ctc_type", ASTOP, STR)}
+CLASS_TABLES = {"GlencoeWriter.CTC_TYPES": ("glencoe_ctc_type", ASTOP, STR),
+                "FeatureIDEWriter.CTC_TYPES": ("fide_ctc_type", ASTOP, STR)}
 
 STRING_CONSTS = {"ascii_letters": "abcdefghijklmnopqrstuvwxyzABCDEFGHIJKLMNOPQRSTUVWXYZ", "digits": "0123456789",
                  "ascii_lowercase": "abcdefghijklmnopqrstuvwxyz", "ascii_uppercase": "ABCDEFGHIJKLMNOPQRSTUVWXYZ"}
@@ -231,6 +252,9 @@ class FuncInfo:
         self.mutator = False
         self.failed = None        # why this function could not be translated
         self.kind = None          # "static" / "class" for methods without a receiver
+        self.store = False        # works on set objects: takes and returns the store of sets
+        self.inouts = []          # list parameters it mutates: their new values are returned as well
+        self.export = False       # returned to the outside: set references in the result are replaced by the sets
         self.group = []
         self.has_while = False
         self.calls = set()
@@ -257,6 +281,10 @@ def parse_ann(a, ctx):
             return Opt(parse_ann(a.slice, ctx))
         if a.value.id in ("dict", "Dict") and ast.unparse(a.slice) in ("(str, Any)", "str, Any"):
             return ANY
+        if a.value.id == "Union" and ast.unparse(a.slice) in ("(int, str)", "int, str"):
+            return INTSTR
+        if a.value.id in ("set", "Set") and parse_ann(a.slice, ctx) == FEATURE:
+            return FSET
         if a.value.id in ("list", "List"):
             return List(parse_ann(a.slice, ctx))
         if a.value.id == "tuple":
@@ -302,11 +330,12 @@ class Translator:
         self.join_ifs = False
         self.module_tables = {}
         self.module_strlists = {}
+        self.module_oplists = {}
         self.fresh_returning = set()
 
     def fresh(self, base="v"):
         self.counter += 1
-        return f"{base}{self.counter}"
+        return f"{base}{self.counter}".replace("$", "the_")
 
     # ---------------------------------------------------------------- helpers
     def lookup(self, key):
@@ -358,6 +387,18 @@ class Translator:
                 return self.lift([v], lambda c: Val(f"(map (fun x => Some x) {c[0]})", ty))
         if v.ty == BOOL and ty == INT:
             return self.lift([v], lambda c: Val(f"(if {c[0]} then 1%Z else 0%Z)", INT))
+        if ty == INTSTR and v.ty == INT:
+            return self.lift([v], lambda c: Val(f"(z_to_string {c[0]})", INTSTR))
+        if ty == INTSTR and v.ty == STR:
+            # a genuine string value must not look like a number (the representation would confuse it with the int)
+            if not (v.code.startswith('"') and not v.code.strip('"').lstrip("-").isdigit() and not v.eff):
+                fail(ctx, "Union[int, str]: a string value that is not a non-numeric constant")
+            return Val(v.code, INTSTR)
+        if ty == ANY and v.ty == INTSTR:
+            fail(ctx, "Union[int, str] used as a value")
+        if v.ty == ANY and ty == List(ANY):
+            self.cur.intrinsic_eff = True
+            return self.lift([v], lambda c: Val(f"(match {c[0]} with VList l => Ok l | _ => Err TypeError end)", List(ANY), True))
         if v.ty == ANY and ty == FLOAT:
             self.cur.intrinsic_eff = True
             return self.lift([v], lambda c: Val(f"(match {c[0]} with VFloat r => Ok r | _ => Err TypeError end)", FLOAT, True))
@@ -366,7 +407,7 @@ class Translator:
             self.cur.intrinsic_eff = True
             return self.lift([v], lambda c: Val(f"(match {c[0]} with DStr s => Ok s | _ => Err AttributeError end)", STR, True))
         if ty == ANY:
-            wrap = {STR: "(VStr {0})", INT: "(VInt {0})", BOOL: "(VBool {0})", NDATA: "(any_of_data {0})"}
+            wrap = {STR: "(VStr {0})", INT: "(VInt {0})", BOOL: "(VBool {0})", NDATA: "(any_of_data {0})"}  # noqa
             if v.ty in wrap:
                 return self.lift([v], lambda c: Val(wrap[v.ty].format(c[0]), ANY))
             if v.ty == NONE:
@@ -428,6 +469,8 @@ class Translator:
             return Val(coq_str(self.module_consts[e.id]), STR)
         if e.id in self.module_tables:
             return Val(f"py_{e.id}", ("table", e.id))
+        if e.id in self.module_oplists:
+            return Val("[" + "; ".join(self.module_oplists[e.id]) + "]", List(ASTOP))
         if e.id in self.module_strlists:
             return Val("[" + "; ".join(coq_str(x) for x in self.module_strlists[e.id]) + "]", List(STR))
         if e.id in env.leaked:
@@ -439,6 +482,9 @@ class Translator:
         fail(e, "unknown name")
 
     def e_Attribute(self, e, env):
+        if isinstance(e.value, ast.Name) and e.value.id == "FeatureIDEReader" and (
+                e.attr.startswith("TAG_") or e.attr.startswith("ATTRIB_")):
+            return Val(f"fide_{e.attr}", STR)
         if isinstance(e.value, ast.Name) and e.value.id == "string" and e.attr in STRING_CONSTS:
             return Val(coq_str(STRING_CONSTS[e.attr]), STR)
         if isinstance(e.value, ast.Name) and e.value.id == "ASTOperation":
@@ -456,6 +502,9 @@ class Translator:
                 fail(e, "unknown enum member")
             return Val(coq_str(members[e.value.attr]), STR)
         o = self.obj(self.tr(e.value, env))
+        if o.ty == FTYPE and e.attr == "value":
+            return self.lift([o], lambda c: Val(
+                "(match " + c[0] + " with " + " | ".join(f"{FTYPE_MEMBERS[k]} => {coq_str(v)}" for k, v in FTYPE_VALUES.items()) + " end)", STR))
         if o.ty == NDATA and e.attr == "value":
             # the value of an ASTOperation member; any other data has no such attribute
             self.cur.intrinsic_eff = True
@@ -485,7 +534,7 @@ class Translator:
                     parts.append(self.lift([v], lambda c: Val(f"(z_to_string {c[0]})", STR)))
                 elif v.ty == ANY:
                     parts.append(self.lift([v], lambda c: Val(f"(aval_str {c[0]})", STR)))
-                elif v.ty == FLOAT:
+                elif v.ty in (FLOAT, INTSTR):
                     parts.append(Val(v.code, STR, v.eff))
                 else:
                     fail(e, f"f-string over {v.ty}")
@@ -535,6 +584,8 @@ class Translator:
             t = List(join(a.ty[1], b.ty[1]))
             a, b = self.coerce(a, t, e), self.coerce(b, t, e)
             return self.lift([a, b], lambda c: Val(f"({c[0]} ++ {c[1]})%list", t))
+        if a.ty == INT and b.ty == STR and isinstance(e.op, ast.Mult):
+            return self.lift([a, b], lambda c: Val(f"(py_str_repeat {c[1]} {c[0]})", STR))
         if a.ty == STR and b.ty == INT and isinstance(e.op, ast.Mult):
             return self.lift([a, b], lambda c: Val(f"(py_str_repeat {c[0]} {c[1]})", STR))
         if a.ty == STR and b.ty == STR and isinstance(e.op, ast.Add):
@@ -584,6 +635,9 @@ class Translator:
             b, tb = self.coerce(b, INT, ctx), INT
         if ta == BOOL and tb == INT:
             a, ta = self.coerce(a, INT, ctx), INT
+        if INTSTR in (ta, tb) and {ta, tb} <= {INTSTR, INT}:
+            a, b = self.coerce(a, INTSTR, ctx), self.coerce(b, INTSTR, ctx)
+            return self.lift([a, b], lambda c: Val(f"(String.eqb {c[0]} {c[1]})", BOOL))
         table = {INT: "(Z.eqb {0} {1})", STR: "(String.eqb {0} {1})", BOOL: "(Bool.eqb {0} {1})",
                  FTYPE: "(ftype_eqb {0} {1})", ASTOP: "(astop_eqb {0} {1})"}
         if ta == tb and ta in table:
@@ -849,6 +903,10 @@ class Translator:
             return v
         if v.ty == STR:
             return self.lift([v], lambda c: Val(f"(list_ascii_of_string {c[0]})", List(CHAR)))
+        if v.ty == ANY:
+            return self.coerce(v, List(ANY), e)
+        if v.ty[0] == "tuple" and len(set(v.ty[1])) == 1 and v.code.startswith("(") and not v.eff:
+            return Val("[" + v.code[1:-1].replace(", ", "; ") + "]", List(v.ty[1][0]))
         fail(e, f"cannot iterate over {v.ty}")
 
     def bind_target(self, target, ty, env):
@@ -896,6 +954,11 @@ class Translator:
                 # a combination (a tuple in Python) is a list here
                 self.cur.intrinsic_eff = True
                 return self.lift([l, k], lambda c: Val(f"(py_combinations {c[0]} {c[1]})", List(l.ty), True))
+            if isinstance(fn.value, ast.Name) and fn.value.id == "re" and fn.attr == "fullmatch" and len(e.args) == 2 \
+                    and isinstance(e.args[0], ast.Constant) and e.args[0].value == "[A-Za-z][A-Za-z0-9_]*":
+                v = self.coerce(self.tr(e.args[1], env), STR, e)
+                # the one pattern the writers use; a match object is truthy, None is not
+                return self.lift([v], lambda c: Val(f"(py_is_identifier {c[0]})", BOOL))
             if isinstance(fn.value, ast.Name) and fn.value.id == "math" and fn.attr == "isfinite" and len(e.args) == 1:
                 v = self.coerce(self.tr(e.args[0], env), FLOAT, e)
                 return self.lift([v], lambda c: Val(f"(py_float_isfinite {c[0]})", BOOL))
@@ -927,6 +990,10 @@ class Translator:
                     len(e.args[0].value) == 1 and e.args[1].value == "":
                 ch = coq_str(e.args[0].value)
                 return self.lift([recv], lambda c: Val(f"(str_remove_char {ch}%char {c[0]})", STR))
+            if recv.ty == ANY and fn.attr == "items" and not e.args:
+                self.cur.intrinsic_eff = True
+                return self.lift([recv], lambda c: Val(f"(match {c[0]} with VMap kv => Ok kv | _ => Err AttributeError end)",
+                                                       List(Tup([STR, ANY])), True))
             if recv.ty[0] == "dict" and fn.attr == "items" and not e.args:
                 return Val(recv.code, List(Tup([recv.ty[1], recv.ty[2]])), recv.eff)
             if recv.ty[0] == "dict" and fn.attr == "keys" and not e.args:
@@ -935,6 +1002,14 @@ class Translator:
                     and isinstance(e.args[0].value, str) and len(e.args[0].value) == 1:
                 ch = coq_str(e.args[0].value)
                 return self.lift([recv], lambda c: Val(f"(starts_with_char {ch}%char {c[0]})", BOOL))
+            if recv.ty == STR and fn.attr == "split" and len(e.args) == 1 and isinstance(e.args[0], ast.Constant) \
+                    and isinstance(e.args[0].value, str) and len(e.args[0].value) == 1:
+                ch = coq_str(e.args[0].value)
+                return self.lift([recv], lambda c: Val(f"(str_split {ch}%char {c[0]})", List(STR)))
+            if recv.ty == STR and fn.attr == "endswith" and len(e.args) == 1 and isinstance(e.args[0], ast.Constant) \
+                    and isinstance(e.args[0].value, str) and len(e.args[0].value) == 1:
+                ch = coq_str(e.args[0].value)
+                return self.lift([recv], lambda c: Val(f"(ends_with_char {ch}%char {c[0]})", BOOL))
             if recv.ty == STR and fn.attr == "join" and len(e.args) == 1:
                 l = self.arg_list(e.args[0], env, STR)
                 return self.lift([recv, l], lambda c: Val(f"(str_join {c[0]} {c[1]})", STR))
@@ -976,9 +1051,12 @@ class Translator:
             a = self.coerce(self.tr(args[1], env), NODE, e)
             return self.lift([n, a], lambda c: Val(f"{{| c_name := {c[0]}; c_ast := {c[1]} |}}", CTC))
         if name == "format" and len(args) == 2 and ast.unparse(args[1]) == "'f'" and isinstance(args[0], ast.Call) \
-                and ast.unparse(args[0].func) == "Decimal" and len(args[0].args) == 1 and isinstance(args[0].args[0], ast.Call) \
-                and ast.unparse(args[0].args[0].func) == "repr" and len(args[0].args[0].args) == 1:
-            v = self.coerce(self.tr(args[0].args[0].args[0], env), FLOAT, e)
+                and ast.unparse(args[0].func) == "Decimal" and len(args[0].args) == 1:
+            inner = args[0].args[0]
+            if isinstance(inner, ast.Call) and ast.unparse(inner.func) == "repr" and len(inner.args) == 1:
+                v = self.coerce(self.tr(inner.args[0], env), FLOAT, e)
+            else:
+                v = self.coerce(self.tr(inner, env), STR, e)      # the repr of a float held in a str variable
             self.cur.intrinsic_eff = True
             # positional spelling of a finite float (Base/Str.v py_positional, validated by C06 / C11); Decimal raises for inf / nan
             return self.lift([v], lambda c: Val(f"(match py_positional {c[0]} with Some t => Ok t | None => Err ValueError end)", STR, True))
@@ -992,8 +1070,13 @@ class Translator:
                     fail(e, "escape() with entities other than the double quote")
                 quot = "true"
             return self.lift([v], lambda c: Val(f"(py_xml_escape {quot} {c[0]})", STR))
+        if name == "repr" and len(args) == 1:
+            v = self.coerce(self.tr(args[0], env), FLOAT, e)
+            return Val(v.code, STR, v.eff)
         if name == "len" and len(args) == 1:
             v = self.obj(self.tr(args[0], env))
+            if v.ty == ANY:
+                v = self.coerce(v, List(ANY), e)
             if v.ty[0] not in ("list", "dict"):
                 fail(e, f"len of {v.ty}")
             return self.lift([v], lambda c: Val(f"(py_len {c[0]})", INT))
@@ -1049,6 +1132,8 @@ class Translator:
                 return self.lift([v], lambda c: Val(f"(node_str {c[0]})", STR))      # AST.__str__ / Node.__str__ (core)
             if v.ty == ANY:
                 return self.lift([v], lambda c: Val(f"(aval_str {c[0]})", STR))
+            if v.ty == INTSTR:
+                return Val(v.code, STR, v.eff)
             if v.ty == FLOAT:
                 return v if False else self.lift([v], lambda c: Val(f"{c[0]}", STR))
             f = self.lookup((v.ty[0], "__str__"))
@@ -1096,6 +1181,12 @@ class Translator:
             t = args[1]
             if isinstance(t, ast.Name) and (t.id,) == v.ty and not v.eff:
                 return Val("true", BOOL)
+            if v.ty == ANY and ast.unparse(t) in ("(list, tuple)", "list"):
+                return self.lift([v], lambda c: Val(f"(match {c[0]} with VList _ => true | _ => false end)", BOOL))
+            if v.ty == ANY and ast.unparse(t) == "dict":
+                return self.lift([v], lambda c: Val(f"(match {c[0]} with VMap _ => true | _ => false end)", BOOL))
+            if v.ty == NDATA and isinstance(t, ast.Name) and t.id == "str":
+                return self.lift([v], lambda c: Val(f"(match {c[0]} with DStr _ => true | _ => false end)", BOOL))
             if v.ty == ANY and isinstance(t, ast.Name) and t.id in ("str", "bool", "int", "float"):
                 pat = {"str": "VStr _", "bool": "VBool _", "int": "VInt _ | VBool _", "float": "VFloat _"}[t.id]
                 return self.lift([v], lambda c: Val(f"(match {c[0]} with {pat} => true | _ => false end)", BOOL))
@@ -1151,6 +1242,8 @@ class Translator:
                 and isinstance(e.slice.lower, ast.Constant) and isinstance(e.slice.lower.value, int) and e.slice.lower.value >= 0:
             n = e.slice.lower.value
             return self.lift([v], lambda c: Val(f"(str_drop {n} {c[0]})", STR))       # s[n:] on bytes: n ASCII characters
+        if v.ty == ANY and not isinstance(e.slice, ast.Slice) and self.tr(e.slice, env).ty == INT:
+            v = self.coerce(v, List(ANY), e)
         if v.ty == ANY and not isinstance(e.slice, ast.Slice):
             k = self.coerce(self.tr(e.slice, env), STR, e)
             self.cur.intrinsic_eff = True
@@ -1178,6 +1271,23 @@ class Translator:
             fail(s, f"unsupported statement {type(s).__name__}")
         return m(s, rest, env, k)
 
+    def final_store(self, v, env):
+        """result of a store function: the store, the new values of the lists it mutates, the value"""
+        f = self.cur
+        st = env.vars["$store"][0]
+        if f.export:
+            if v is None or v.ty not in (List(SETREF), List(UNKNOWN)) or v.eff:
+                fail(f.node, "an exported store function must return a list of sets")
+            return f"(Ok (map (py_store_get {st}) {v.code}))"
+        parts = [st] + [env.vars[n][0] for n in f.inouts]
+        if v is not None:
+            v = self.coerce(v, f.ret, f.node)
+            if v.eff:
+                n = self.fresh()
+                return f"(bind {v.code} (fun {n} => (Ok ({', '.join(parts + [n])}))))"
+            parts.append(v.code)
+        return "(Ok (" + ", ".join(parts) + "))" if len(parts) > 1 else f"(Ok {parts[0]})"
+
     def final(self, v):
         """a value as the function result (always in the monad when the function is effectful)"""
         v = self.coerce(v, self.cur.ret, self.cur.node)
@@ -1199,6 +1309,8 @@ class Translator:
             fail(s, "return inside a loop")
         if s.value is None:
             fail(s, "bare return")
+        if self.cur.store:
+            return self.final_store(self.tr(s.value, env), env)
         if self.written is not None:
             v = self.tr(s.value, env)
             if not (isinstance(s.value, ast.Name) and s.value.id == self.written[0] and v.code == self.written[1]):
@@ -1213,10 +1325,63 @@ class Translator:
             return f"(Err {s.exc.func.id})"
         fail(s, "unsupported raise")
 
+    def store_call(self, call, target, rest, env, k, ctx):
+        """f(args) for a store function f: the store and the mutated list arguments come back and are rebound"""
+        f = self.lookup((None, call.func.id))
+        self.cur.calls.add(f.coqname)
+        if call.keywords or len(call.args) != len(f.params):
+            fail(ctx, "call of a store function with other than its positional parameters")
+        args, rebind = [], []
+        for a, (pn, pt, pd) in zip(call.args, f.params):
+            v = self.coerce(self.tr(a, env), pt, ctx)
+            if v.eff:
+                fail(ctx, "effectful argument of a store function")
+            if pn in f.inouts:
+                if not (isinstance(a, ast.Name) and a.id in env.vars and a.id in self.local_containers):
+                    fail(ctx, "a list that the callee mutates must be a local list (or such a parameter) of the caller")
+                rebind.append(a.id)
+            args.append(v.code)
+        st = self.fresh("st_")
+        en = env.bind("$store", st, STORE)
+        pats = [st]
+        for n in rebind:
+            fn = self.fresh(n + "_")
+            pats.append(fn)
+            en = en.bind(n, fn, env.vars[n][1])
+        if f.ret != NONE:
+            if target is None:
+                pats.append("_")
+            else:
+                fn = self.fresh(target + "_")
+                pats.append(fn)
+                en = en.bind(target, fn, self.note_type(target, f.ret, ctx))
+        pat = "'(" + ", ".join(pats) + ")" if len(pats) > 1 else pats[0]
+        return (f"(bind ({f.coqname} fuel {env.vars['$store'][0]} " + " ".join(args) + f") (fun {pat} => "
+                + self.block(rest, en, k) + "))")
+
+    def is_store_call(self, v):
+        if isinstance(v, ast.Call) and isinstance(v.func, ast.Name):
+            f = self.funcs.get((None, v.func.id))
+            return f is not None and f.store
+        return False
+
     def s_Expr(self, s, rest, env, k):
         v = s.value
         if isinstance(v, ast.Constant) and isinstance(v.value, str):
             return self.block(rest, env, k)          # docstring
+        if self.cur.store and self.is_store_call(v):
+            return self.store_call(v, None, rest, env, k, s)
+        if (self.cur.store and isinstance(v, ast.Call) and isinstance(v.func, ast.Attribute) and v.func.attr == "add"
+                and len(v.args) == 1 and isinstance(v.func.value, ast.Name) and v.func.value.id in env.vars
+                and env.vars[v.func.value.id][1] == SETREF):
+            ref = env.vars[v.func.value.id][0]
+            x = self.coerce(self.tr(v.args[0], env), FEATURE, s)
+            if x.eff:
+                fail(s, "effectful element")
+            eqf = self.lookup(("Feature", "__eq__"))
+            st = self.fresh("st_")
+            return (f"(let {st} := (py_store_add {eqf.coqname} {env.vars['$store'][0]} {ref} {x.code}) in "
+                    + self.block(rest, env.bind("$store", st, STORE), k) + ")")
         if isinstance(v, ast.Call) and isinstance(v.func, ast.Attribute) and isinstance(v.func.value, ast.Name):
             name, meth = v.func.value.id, v.func.attr
             if name in env.vars and name in self.local_containers and meth in ("append", "extend") and len(v.args) == 1:
@@ -1265,6 +1430,20 @@ class Translator:
         if len(s.targets) != 1:
             fail(s, "multiple assignment targets")
         t = s.targets[0]
+        if isinstance(t, ast.Name) and self.cur.store and self.is_store_call(s.value):
+            return self.store_call(s.value, t.id, rest, env, k, s)
+        if isinstance(t, ast.Name) and self.cur.store and isinstance(s.value, ast.Set):
+            # {e1, ...}: a new set object in the store; the variable holds its index
+            xs = [self.coerce(self.tr(x, env), FEATURE, s) for x in s.value.elts]
+            if any(x.eff for x in xs):
+                fail(s, "effectful element")
+            eqf = self.lookup(("Feature", "__eq__"))
+            cur = env.vars["$store"][0]
+            ref, st = self.fresh(t.id + "_"), self.fresh("st_")
+            self.note_type(t.id, SETREF, s)
+            en = env.bind(t.id, ref, SETREF).bind("$store", st, STORE)
+            return (f"(let {ref} := (List.length {cur}) in (let {st} := ({cur} ++ [py_set_of {eqf.coqname} ["
+                    + "; ".join(x.code for x in xs) + f"]])%list in " + self.block(rest, en, k) + "))")
         if isinstance(t, ast.Name):
             if (isinstance(s.value, ast.Call) and isinstance(s.value.func, ast.Attribute)
                     and s.value.func.attr == "pop" and not s.value.args
@@ -1344,6 +1523,9 @@ class Translator:
     def tr_value(self, e, env, name):
         if isinstance(e, ast.Dict) and not e.keys:
             t = self.vartypes.get(name)
+            if t is None and self.cur.ret[0] == "dict":
+                t = self.cur.ret
+                self.vartypes[name] = t
             if t == ANY or t is None:
                 return Val("(VMap [])", ANY)        # an unannotated {} is a JSON-like dict
             if t[0] != "dict":
@@ -1376,6 +1558,9 @@ class Translator:
     def simple_assign_block(self, stmts):
         for st in stmts:
             if isinstance(st, ast.Assign) and len(st.targets) == 1 and isinstance(st.targets[0], ast.Name):
+                continue
+            if isinstance(st, ast.Assign) and len(st.targets) == 1 and isinstance(st.targets[0], ast.Subscript) \
+                    and isinstance(st.targets[0].value, ast.Name) and st.targets[0].value.id in self.local_containers:
                 continue
             if isinstance(st, (ast.AugAssign, ast.AnnAssign)) and isinstance(st.target, ast.Name) and getattr(st, "value", 1) is not None:
                 continue
@@ -1449,6 +1634,17 @@ class Translator:
                     add(node.func.value.id)
                 elif isinstance(node, (ast.For, ast.comprehension)):
                     pass
+                if self.cur is not None and self.cur.store:
+                    if isinstance(node, ast.Set) or (isinstance(node, ast.Call) and isinstance(node.func, ast.Attribute)
+                                                     and node.func.attr == "add"):
+                        add("$store")
+                    if isinstance(node, ast.Call) and isinstance(node.func, ast.Name):
+                        g = self.funcs.get((None, node.func.id))
+                        if g is not None and g.store:
+                            add("$store")
+                            for a, (pn, pt, pd) in zip(node.args, g.params):
+                                if pn in g.inouts and isinstance(a, ast.Name):
+                                    add(a.id)
         return out
 
     def loop_state(self, body, env, ctx):
@@ -1597,10 +1793,15 @@ class Translator:
         for _ in range(8):
             self.seen_decl = set()
             env = Env()
+            if f.store:
+                env = env.bind("$store", "(@nil (list lfeat))" if f.export else "st_0", STORE)
+                self.local_containers |= set(f.inouts)
             for (pn, pt, pd) in f.params:
                 env = env.bind(pn, pname(pn), pt)
             try:
                 def k_end(en):
+                    if f.store and f.ret == NONE:
+                        return self.final_store(None, en)
                     if f.mutator:
                         return self.final(Val(en.vars["self"][0], en.vars["self"][1]))
                     fail(fnode, "control reaches the end of the function without return")
@@ -1629,6 +1830,7 @@ def collect(unit):
     consts = {}
     tables = {}
     strlists = {}
+    oplists = {}
     for path, cls_methods, functions in unit["files"]:
         full = os.path.join(REPO_PKG, path)
         tree = ast.parse(open(full, encoding="utf-8").read(), full)
@@ -1663,6 +1865,15 @@ def collect(unit):
                         break
                 if rows is not None and len({r[0] for r in rows}) == len(rows):
                     tables[tgt.id] = rows
+            val0 = getattr(st, "value", None)
+            if isinstance(tgt, ast.Name) and isinstance(val0, (ast.Tuple, ast.List)) and val0.elts and all(
+                    isinstance(x, ast.Attribute) and isinstance(x.value, ast.Name) and x.value.id == "ASTOperation"
+                    and x.attr in ASTOPS for x in val0.elts):
+                oplists[tgt.id] = [x.attr for x in val0.elts]
+            if isinstance(tgt, ast.Name) and isinstance(val0, ast.Call) and ast.unparse(val0.func) == "frozenset" \
+                    and len(val0.args) == 1 and isinstance(val0.args[0], (ast.Set, ast.List, ast.Tuple)) and all(
+                    isinstance(x, ast.Constant) and isinstance(x.value, str) for x in val0.args[0].elts):
+                strlists[tgt.id] = sorted({x.value for x in val0.args[0].elts})
             if isinstance(tgt, ast.Name) and isinstance(getattr(st, "value", None), (ast.Tuple, ast.List)) and st.value.elts and all(
                     isinstance(x, ast.Constant) and isinstance(x.value, str) for x in st.value.elts):
                 strlists[tgt.id] = [x.value for x in st.value.elts]
@@ -1744,13 +1955,32 @@ def collect(unit):
             else:
                 f.params.append((arg.arg, OVERRIDE_PARAM.get((f.cls, f.node.name, arg.arg)) or parse_ann(arg.annotation, arg), d))
         f.ret = OVERRIDE_RET.get(key) or parse_ann(f.node.returns, f.node)
+        if key[0] is None and key[1] in unit.get("store_funcs", []):
+            f.store = True
+            f.export = key[1] in unit.get("store_exports", [])
+
+            def to_ref(t):
+                if t == FSET:
+                    return SETREF
+                if t[0] in ("list", "opt"):
+                    return (t[0], to_ref(t[1]))
+                return t
+            f.params = [(pn, to_ref(pt), pd) for pn, pt, pd in f.params]
+            if not f.export:
+                f.ret = to_ref(f.ret)
+            pnames = {pn: pt for pn, pt, _ in f.params}
+            for x in ast.walk(f.node):
+                if isinstance(x, ast.Call) and isinstance(x.func, ast.Attribute) and x.func.attr in ("append", "extend") \
+                        and isinstance(x.func.value, ast.Name) and pnames.get(x.func.value.id, ("?",))[0] == "list" \
+                        and x.func.value.id not in f.inouts:
+                    f.inouts.append(x.func.value.id)
         if getattr(f, "is_obj", False) and f.ret == NONE:
             f.ret, f.mutator = ("obj", f.cls), True       # a method that only changes the object: the new state
-    return funcs, enums, consts, tables, strlists
+    return funcs, enums, consts, tables, strlists, oplists
 
 
 def translate_unit(unit, externals):
-    funcs, enums, consts, tables, strlists = collect(unit)
+    funcs, enums, consts, tables, strlists, oplists = collect(unit)
     fresh = set()
     tr = Translator(unit["name"], funcs, externals)
     tr.enums = enums
@@ -1758,6 +1988,7 @@ def translate_unit(unit, externals):
     tr.join_ifs = bool(unit.get("join_ifs"))
     tr.module_tables = tables
     tr.module_strlists = strlists
+    tr.module_oplists = oplists
     # top-level functions that return a list they created themselves (so the caller may mutate it)
     for (cls, name), f in funcs.items():
         if cls is None:
@@ -1812,7 +2043,7 @@ def translate_unit(unit, externals):
         for f in funcs.values():
             if f.failed:
                 continue
-            fuel = f.rec or f.has_while or any(by_name[c].fuel for c in f.calls)
+            fuel = f.rec or f.has_while or f.store or any(by_name[c].fuel for c in f.calls)
             eff = f.intrinsic_eff or fuel or any(by_name[c].eff for c in f.calls) or contains_loop(f.node)
             if fuel != f.fuel or eff != f.eff:
                 f.fuel, f.eff, changed = fuel, eff, True
@@ -1870,6 +2101,16 @@ def translate_unit(unit, externals):
             continue
         params = " ".join(f"({pname(pn)} : {coq_ty(pt)})" for pn, pt, pd in f.params)
         rty = coq_ty(f.ret)
+        if f.store:
+            if f.export:
+                rty = "(list (list lfeat))"
+            else:
+                params = "(st_0 : py_store) " + params
+            if f.export:
+                pass
+            else:
+                comps = ["py_store"] + [coq_ty(pt) for pn, pt, pd in f.params if pn in f.inouts] + ([rty] if f.ret != NONE else [])
+                rty = "(" + " * ".join(comps) + ")%type"
         if f.rec and len(f.group) > 1:
             key = tuple(f.group)
             pending.setdefault(key, []).append(
@@ -1937,16 +2178,20 @@ UNITS = [
          ("operations/fm_average_branching_factor.py", {}, ["average_branching_factor"]),
          ("operations/fm_variation_points.py", {}, ["variation_points"]),
      ]},
-    {"name": "opobj", "imports": " Gen.Src_fm Gen.Src_ops",
+    {"name": "atomic", "imports": " Gen.Src_fm",
+     "files": [("operations/fm_atomic_sets.py", {}, ["get_atomic_sets", "compute_atomic_sets"])],
+     "store_funcs": ["get_atomic_sets", "compute_atomic_sets"], "store_exports": ["get_atomic_sets"]},
+    {"name": "opobj", "imports": " Gen.Src_fm Gen.Src_ops Gen.Src_atomic",
      "files": [(p, {}, []) for p in (
          "operations/fm_estimated_configurations_number.py", "operations/fm_core_features.py",
          "operations/fm_count_leafs.py", "operations/fm_leaf_features.py", "operations/fm_feature_ancestors.py",
          "operations/fm_max_depth_tree.py", "operations/fm_average_branching_factor.py",
-         "operations/fm_variation_points.py")],
+         "operations/fm_variation_points.py", "operations/fm_atomic_sets.py")],
      "objects": {
          "operations/fm_estimated_configurations_number.py":
              {"FMEstimatedConfigurationsNumber": ["execute", "get_result", "get_configurations_number"]},
          "operations/fm_core_features.py": {"FMCoreFeatures": ["execute", "get_result", "get_core_features"]},
+         "operations/fm_atomic_sets.py": {"FMAtomicSets": ["execute", "get_result", "atomic_sets"]},
          "operations/fm_count_leafs.py": {"FMCountLeafs": ["execute", "get_result", "get_number_of_leafs"]},
          "operations/fm_leaf_features.py": {"FMLeafFeatures": ["execute", "get_result"]},
          "operations/fm_feature_ancestors.py": {"FMFeatureAncestors": ["set_feature", "execute", "get_result"]},
@@ -1955,6 +2200,14 @@ UNITS = [
              {"FMAverageBranchingFactor": ["execute", "get_result", "get_average_branching_factor"]},
          "operations/fm_variation_points.py": {"FMVariationPoints": ["execute", "get_result", "variation_points"]},
      }},
+    {"name": "fide", "imports": " Gen.Src_fm Gen.Tables_fide", "join_ifs": True,
+     "files": [("transformations/featureide_writer.py", {},
+                ["_get_attributes", "_tag_element", "_get_constraints_info", "_get_ctc_info"])]},
+    {"name": "uvl", "imports": " Gen.Src_fm", "join_ifs": True,
+     "files": [("transformations/uvl_writer.py", {}, ["safename", "safe_simple_name"])],
+     "objects": {"transformations/uvl_writer.py": {"UVLWriter": [
+         "transform", "read_features", "read_attributes", "serialize_value", "serialize_relation", "read_constraints",
+         "serialize_constraint", "_serialize_operand", "_serialize_node"]}}},
     {"name": "afm", "imports": " Gen.Src_fm", "join_ifs": True,
      "files": [("transformations/afm_writer.py", {}, [])],
      "objects": {"transformations/afm_writer.py": {"AFMWriter": [
